@@ -312,6 +312,7 @@ class C19(Check):
 
     def must_fire(self):
         return [
+            Variant("key-claimed-before-computation", MOD, "_load_or_run", "        res = fn(v)", "        file.touch()\n        res = fn(v)", expect="D1|", quick=True, count=0),
             Variant("reintroduce-direct-write", MOD, "_pickle_save",
                     "    tmp = file.with_name(f'{file.name}.{os.getpid()}.tmp')\n    with tmp.open('wb') as fp:\n        pickle.dump(data, fp)\n    tmp.replace(file)",
                     "    with file.open('wb') as fp:\n        pickle.dump(data, fp)", expect="D1|", quick=True),
